@@ -28,6 +28,7 @@ import (
 	"sort"
 	"strings"
 	"sync"
+	"sync/atomic"
 	"time"
 
 	"github.com/anishathalye/porcupine"
@@ -315,6 +316,8 @@ func (r *runner) crashesOnce(tag string, s Script) string {
 	return cr[0].sig
 }
 
+var shrinkSeq atomic.Int64
+
 // shrink greedily deletes steps while the same crash signature reproduces.
 func (r *runner) shrink(s Script, sig string) Script {
 	budget := 40
@@ -324,7 +327,7 @@ func (r *runner) shrink(s Script, sig string) Script {
 			t := s
 			t.Steps = append(append([]Step{}, s.Steps[:i]...), s.Steps[i+1:]...)
 			budget--
-			if r.crashesOnce("shrink", t) == sig {
+			if r.crashesOnce(fmt.Sprintf("shrink%d", shrinkSeq.Add(1)), t) == sig {
 				s, changed = t, true
 			}
 		}
@@ -375,6 +378,21 @@ func Run(c *core.Ctx) {
 	if c.ReplayFile != "" {
 		var s Script
 		c.LoadReplay(&s)
+		if len(s.Steps) == 0 { // a race report: re-run the forced schedules, finish() re-reads the race logs
+			forced := forcedScripts()
+			hist, crashes := r.runChunk("replay-forced", forced, 0)
+			for _, cr := range crashes {
+				r.minSig, r.minText = cr.sig, MinimalCrashScript().Text()
+				r.reportCrash(cr)
+			}
+			for i, fs := range forced {
+				if h := hist[i]; h != nil {
+					r.judge(fs, h)
+				}
+			}
+			r.finish()
+			return
+		}
 		for i := 0; i < 5; i++ {
 			s.Idx = 0
 			hist, crashes := r.runChunk(fmt.Sprintf("replay%d", i), []Script{s}, 0)
